@@ -189,6 +189,7 @@ def emit():
     cat = []
     c03 = {"q": [], "t": []}
     c18 = {"q": [], "t": []}
+    c12h = {"q": [], "t": []}
     for h in H:
         out.append("pub mod %s {\n    use super::*;\n    %s" % (h.name, h.extra.replace("\n", "\n    ")))
         for k in range(h.nver):
@@ -219,6 +220,19 @@ def emit():
                 body += ["std::mem::forget(x); std::mem::forget(y);", 'kani::cover!(true, "reached end");']
                 tier = "q" if (h.tier == "q") else "t"
                 c03[tier].append("kproof!(%s_w%d_r%d, %d, {\n        %s\n    });" % (h.name, i, j, uw, "\n        ".join(body)))
+        # ---------------- C12 over versions: the schema version j's definition reports for data version i
+        # describes the bytes version i's own definition writes (version gates of implement_withschema)
+        if not h.has_string():
+            for j in range(h.nver):
+                for i in range(j + 1):
+                    body = ["set_len(2);", construct(h, i, "x"),
+                            "let (buf, n) = ser::<%s::v%d::T, 64>(&x, %d).unwrap();" % (h.name, i, i),
+                            "let s = get_schema::<%s::v%d::T>(%d);" % (h.name, j, i),
+                            "let r = crate::c12::walk(&s, &buf[..n], 0);",
+                            'assert!(r != Err(crate::c12::WalkErr::Recursion) && r != Err(crate::c12::WalkErr::Unsupported), "C12: schema uses a recursion marker / node kind the documented reader does not know");',
+                            'assert!(r == Ok(n), "C12: the schema the version-%d definition reports for data version %d does not describe the bytes the version-%d definition wrote");' % (j, i, i),
+                            "std::mem::forget(x); std::mem::forget(s);", 'kani::cover!(true, "reached end");']
+                    c12h["q" if (h.tier == "q" and (j == h.nver - 1 or i == j)) else "t"].append("kproof!(%s_s%d_d%d, 8, {\n        %s\n    });" % (h.name, j, i, "\n        ".join(body)))
         # load_noschema route (header carries version i, program is at version j): last pair only
         i, j = 0, h.nver - 1
         body = ["set_len(1);", construct(h, i, "x"), "let mut buf = [0u8; 96];", "let n;",
@@ -371,7 +385,7 @@ def emit():
     for t, hs in c18p.items():
         out.append("    pub mod %s {\n    use super::*;\n    %s\n    }" % (t, "\n    ".join(hs)))
     out.append("}")
-    for (m, d) in (("c03", c03), ("c18", c18)):
+    for (m, d) in (("c03", c03), ("c18", c18), ("c12h", c12h)):
         out.append("#[cfg(kani)]\npub mod %s {\n    use super::*;" % m)
         for t, hs in d.items():
             out.append("    pub mod %s {\n    use super::*;\n    %s\n    }" % (t, "\n    ".join(hs)))
